@@ -43,6 +43,11 @@ func stringToArrayIndex(name string) int64 {
 		// you cannot store a uint32 length for an index of uint32
 		return -1
 	}
+	if strconv.FormatInt(index, 10) != name {
+		// Only the canonical numeral is an array index: "01", "+1" and "-0"
+		// are ordinary property names.
+		return -1
+	}
 	return index
 }
 
